@@ -99,6 +99,12 @@ pub fn lists(thorough: bool, seed: usize) -> Vec<Vec<Vec<u8>>> {
         v.push(vec![base[..minl].to_vec()]);
         v.push(vec![base[..minl + 5].to_vec(), base[3..minl + 3].to_vec(), base[..minl + 20].to_vec()]);
     }
+    // one pattern beyond 64 KiB next to short ones (lengths and offsets that do not fit 16 bits)
+    {
+        let mut r2 = Rng(0x70000);
+        let long: Vec<u8> = (0..70_000).map(|_| b"etaoin"[r2.below(6)]).collect();
+        v.push(vec![b"foo".to_vec(), long, b"quux".to_vec()]);
+    }
     // 21..64 patterns with duplicated strings (ordering stability beyond small-sort thresholds)
     for _ in 0..(if thorough { 200 } else { 30 }) {
         let n = 21 + rng.below(44);
@@ -158,7 +164,8 @@ pub fn run(args: &Args) -> Report {
         alpha.dedup();
         alpha.push(b'.');
         let longest = pats.iter().map(|p| p.len()).max().unwrap_or(0);
-        let maxlen = (if thorough { 140 } else { 100 }) + if longest > 30 { 2 * longest } else { 0 };
+        let huge = longest > 1000;
+        let maxlen = if huge { 0 } else { (if thorough { 140 } else { 100 }) + if longest > 30 { 2 * longest } else { 0 } };
         let mut hays = vec![];
         for l in 0..=maxlen {
             let mut h = if l % 3 == 0 { vec![b'.'; l] } else { rng.bytes(&alpha, l) };
@@ -169,6 +176,19 @@ pub fn run(args: &Args) -> Report {
                     h[at..at + p.len()].copy_from_slice(p);
                 }
             }
+            hays.push(h);
+        }
+        if huge {
+            // a few constructed haystacks only (the sweep over every length would be quadratic)
+            let lp = pats.iter().max_by_key(|p| p.len()).unwrap();
+            hays.clear();
+            let mut h = vec![b'Z'; 37];
+            h.extend_from_slice(lp);
+            h.extend_from_slice(b"ZZfooZZquuxZZ");
+            hays.push(h);
+            let mut h = lp[..lp.len() - 1].to_vec();
+            h.extend_from_slice(b"#foo");
+            h.extend_from_slice(lp);
             hays.push(h);
         }
         // systematic placement: one occurrence of a pattern at every position of haystacks of every
@@ -263,6 +283,10 @@ pub fn run(args: &Args) -> Report {
                                 check(&rep, var, kind, pats, &s, h, st, e);
                             }
                         }
+                    } else if h.len() > 10_000 {
+                        check(&rep, var, kind, pats, &s, h, 0, h.len());
+                        check(&rep, var, kind, pats, &s, h, 1, h.len());
+                        check(&rep, var, kind, pats, &s, h, 0, h.len() - 1);
                     } else {
                         check(&rep, var, kind, pats, &s, h, 0, h.len());
                         let mut r2 = Rng(h.len() as u64 + 5);
